@@ -127,3 +127,11 @@ CORPUS += [
     Mut('c13-rejected-proposal-restored-in-place', 'torchtree/inference/mcmc/operator.py', '', "            parameter.tensor = saved_tensor\n", "            parameter.tensor.copy_(saved_tensor)\n", mode='text',
         expect=[('C13.U', 'operators::')]),
 ]
+CORPUS += [
+    Mut('c13-benign-template-helper-through-process-object', 'torchtree/core/parameter.py', '', "    @classmethod\n    def from_json(cls, data: dict[str, Any], dic: dict[str, Identifiable]) -> Parameter:\n",
+        "    @staticmethod\n    def _spot(data, dic):\n        return process_object(data, dic)\n\n"
+        "    @classmethod\n    def from_json(cls, data: dict[str, Any], dic: dict[str, Identifiable]) -> Parameter:\n", mode='text', benign=True),
+    Mut('c13-benign-clock-factory-hoisted-with-the-class-name', 'torchtree/evolution/branch_model.py', '', "    def _sample_shape(self) -> torch.Size:\n        return self._rates.shape[:-1]\n",
+        "    def _sample_shape(self) -> torch.Size:\n        return self._rates.shape[:-1]\n\n    @classmethod\n    def make_spec(cls, id_: str, tree_model, rate):\n        return {'id': id_, 'type': cls.__name__, TreeModel.tag: tree_model, 'rate': rate}\n",
+        mode='text', benign=True),
+]
